@@ -661,11 +661,13 @@ def gen_cases(g: Gen, tier: str) -> list[dict[str, Any]]:
     for s_ in ("a+b c%2Bd", "+", "%2b%2B", "a%20b+c", "100%+"):
         add("str", "url_decode", s_, ())
         add("str", "url_encode", s_, ())
-    for a_ in (-7, 7, -8, 8, 0, 1, -1, 10 ** 30 + 1, -(10 ** 30) - 1):
-        for b_ in (2, -2, 3, -3, 1, -1, 0, 10 ** 15, -(10 ** 15)):
+    quick = tier == "quick"
+    for a_ in ((-7, 7, -8, 0, -(10 ** 30) - 1) if quick else (-7, 7, -8, 8, 0, 1, -1, 10 ** 30 + 1, -(10 ** 30) - 1)):
+        for b_ in ((2, -2, 3, -1, 0, -(10 ** 15)) if quick else (2, -2, 3, -3, 1, -1, 0, 10 ** 15, -(10 ** 15))):
             for name in ("modulo", "divided_by", "plus", "minus", "times", "at_least", "at_most"):
                 add("num", name, a_, (b_,))
-    for a_ in (-7.5, 7.5, -7.0, 2.5, 3.5, -0.5, 0.5, 1.5, -2.5, 0.1, 1e15, 123456789.125):
+    for a_ in ((-7.5, 7.5, -7.0, 2.5, 3.5, -0.5, 123456789.125) if quick else
+               (-7.5, 7.5, -7.0, 2.5, 3.5, -0.5, 0.5, 1.5, -2.5, 0.1, 1e15, 123456789.125)):
         for name in ("abs", "ceil", "floor", "round"):
             add("num", name, a_, ())
         for b_ in (2, -2, 0.5, -1.5):
@@ -1180,9 +1182,14 @@ class Laws:
         try:
             m = f("modulo", a, b) if db != 0 else None
         except decimal.InvalidOperation:
-            self.fail.append(("KNOWN:float-modulo-decimal-InvalidOperation",
+            self.fail.append(("float-modulo-decimal-InvalidOperation",
                               "modulo with float operands raised decimal.InvalidOperation", rp))
             m = None
+        except Exception as e:  # noqa: BLE001
+            from liquid2.exceptions import LiquidTypeError
+            if not isinstance(e, LiquidTypeError):
+                raise
+            m = None                     # quotient too large for the decimal context
         if m is not None:
             self.expect("float-modulo-range", abs(m) <= abs(float(b)) and (m == 0 or (m > 0) == (db > 0)),
                         "float modulo out of range or with the sign of the dividend", **rp, m=m)
@@ -1201,7 +1208,8 @@ class Laws:
 # ------------------------------------------------------------------ main
 
 
-# Recorded witnesses of the defects fixed by the proposed patches (re-observed on every run;
+# Recorded witnesses of the defects fixed by the proposed patches (C19/0001-0006,0008,0009 and, shared
+# with C02, C02/0004 and C02/0008) (re-observed on every run;
 # they print nothing unless the defect is back, in which case they are violations).
 FIXED_WITNESSES: list[tuple[str, str, dict, str]] = [
     ("truncate-negative-slice-bound", "{{ 'hello' | truncate: 2 }}", {}, "..."),
@@ -1213,7 +1221,8 @@ FIXED_WITNESSES: list[tuple[str, str, dict, str]] = [
     ("property-python-equality", "{{ x | where: 'k', true | map: 'n' | join: ',' }}",
      {"x": [{"k": 1, "n": "a"}, {"k": True, "n": "b"}]}, "b"),
     ("map-null-sentinel", "{{ x | map: 'k' | compact | size }}", {"x": [{"k": 1}, {}]}, "1"),
-    ("sum-non-numeric-string", "{{ x | sum }}", {"x": ["abc", 1]}, "1"),
+    ("sum-non-numeric-string", "{{ x | sum }}", {"x": ["abc", 1]}, "1"),                    # C02/0008
+    ("float-modulo-decimal-InvalidOperation", "{{ 1 | modulo: 0.0 }}", {}, "raises LiquidTypeError"),   # C02/0004
     ("float-modulo-sign", "{{ -7.0 | modulo: 2 }}|{{ 7.5 | modulo: -2 }}", {}, "1.0|-0.5"),
     ("remove-last-at-start", "{{ 'abc' | remove_last: 'a' }}|{{ 'abc' | replace_last: 'a', 'x' }}", {}, "bc|xbc"),
 ]
@@ -1259,8 +1268,6 @@ def correspond_robust(chk: C.Check, items: list[dict[str, Any]]) -> None:
 
 
 KNOWN_WITNESSES: list[tuple[str, str, dict, str]] = [
-    ("float-modulo-decimal-InvalidOperation", "{{ 1 | modulo: 0.0 }}", {},
-     "modulo with a float operand raises decimal.InvalidOperation (not a LiquidError) for a zero or far too small divisor"),
     ("sort-missing-key-non-string-property", "{{ x | sort: 'k' | map: 'k' | join: ',' }}",
      {"x": [{"k": 2}, {}, {"k": 1}]},
      "sort: 'k' fails with LiquidTypeError when the property is numeric and one hash lacks it, although items "
@@ -1282,7 +1289,7 @@ def main(chk: C.Check, build: C.Build) -> None:
         try:
             got = o.render(**data)
         except Exception as e:  # noqa: BLE001
-            got = f"{type(e).__name__}: {e}"
+            got = f"raises {type(e).__name__}"
         if got != want:
             chk.finding(sig, f"{src} renders {got!r}, expected {want!r} (is the proposed fix applied?)",
                         {"template": src, "data": data, "got": got, "expected": want})
@@ -1294,8 +1301,7 @@ def main(chk: C.Check, build: C.Build) -> None:
             bad = None
         except Exception as e:  # noqa: BLE001
             got, bad = f"{type(e).__name__}: {e}".splitlines()[0], classify_exc(e)
-        if (sig == "float-modulo-decimal-InvalidOperation" and bad == ("pyexc", "DecimalInvalidOperation")) or (
-                sig == "sort-missing-key-non-string-property" and bad == ("lerr", "LiquidTypeError")):
+        if sig == "sort-missing-key-non-string-property" and bad == ("lerr", "LiquidTypeError"):
             chk.finding(sig, what + f" ({src} -> {got})", {"template": src, "data": data, "got": got})
 
     # ---- direct oracle
@@ -1420,5 +1426,5 @@ def main(chk: C.Check, build: C.Build) -> None:
         "sorted() is modelled as a stable sort over mutually comparable keys (numbers, strings); list-valued sort keys are outside the model",
         "html.unescape is a parameter of the escape_once theorems (hypothesis unescape (escape s) = s); executable only for the references html.escape emits and printable-ASCII numeric references",
         "tuples are identified with lists; dict keys are strings",
-        "the check expects the patches in /verif/proposed_fixes/C19 to be applied to the tree it runs against",
+        "the check expects proposed_fixes/C02/0004 and C02/0008 and the patches in proposed_fixes/C19 to be applied to the tree it runs against",
     ]
